@@ -55,6 +55,19 @@ func (bs *buildState) flattensIntoChain(ref *RefSchema, seen map[*RefSchema]bool
 	return false
 }
 
+// checkFlattenedNames repeats the check of flattened member names for the
+// objects created by the build, once all of them are linked.
+func (bs *buildState) checkFlattenedNames() error {
+	for _, ref := range bs.created {
+		if object, ok := ref.To.(*ObjectSchema); ok {
+			if err := checkFlattenedNames(object); err != nil {
+				return err
+			}
+		}
+	}
+	return nil
+}
+
 type SchemaSet struct {
 	Packages map[string]*Package
 
